@@ -232,3 +232,11 @@ Proof.
   - apply err_missing; assumption.
   - apply (err_rebase fixed fs c f chk); assumption.
 Qed.
+
+(* the raw form (no crash; both builders agree) accepts the model under any function table *)
+Lemma check_sound_raw fs s : C09_check KRaw s (obs_of (compile fs s)) = true.
+Proof.
+  pose proof (compile_total fs s) as Ht.
+  destruct (compile fs s) as [[t es]|]; [|congruence].
+  cbn [obs_of C09_check claim_static claim_expect]. rewrite str_eqb_refl. reflexivity.
+Qed.
